@@ -144,7 +144,7 @@ Proof.
   - (* TTuple *) intros vs IHv alias c ts Hq H. cbn [toks] in H. inv_bind H. inversion H; subst.
     apply G_alias, G_cons_text. apply G_snoc; [|reflexivity]. apply G_tjoin; [reflexivity|]. (eapply IHv; [ | eassumption]; first [exact Hq | reflexivity | rewrite sq_opc; exact Hq]).
   - (* TArray *) intros vs IHv alias c ts Hq H. cbn [toks] in H.
-    destruct (toks_list c vs) as [ss|] eqn:Es; cbn [bind] in H; [|discriminate]. inversion H; subst.
+    destruct (toks_list (set_wa c false) vs) as [ss|] eqn:Es; cbn [bind] in H; [|discriminate]. inversion H; subst.
     apply G_alias. assert (Hj : G (tjoin "," ss)) by (apply G_tjoin; [reflexivity|]; (eapply IHv; [ | eassumption]; first [exact Hq | reflexivity | rewrite sq_opc; exact Hq])).
     destruct (is_pg (dia c)); [destruct (all_empty (tjoin "," ss))|].
     + apply G_text.
